@@ -44,3 +44,18 @@ Print Assumptions C16_callee_saved_a32.
 Theorem C16_callee_saved_refuted : In 9 aapcs_preserved /\ In 7 aapcs_preserved.
 Proof. exact arm_scratch_refuted_pinned. Qed.
 Print Assumptions C16_callee_saved_refuted.
+
+(* the constants of the model's encoder are those of the current Rust source (gen/SrcConsts.v is regenerated from it on every run) *)
+From Inj Require Import SrcTie.
+From Inj.gen Require Import SrcConsts.
+Theorem C16_source_words : a32_ldr SRC_RA = ARM_A32_LDR /\ a32_bx SRC_RA = ARM_A32_BX /\ t16_ldr_bx SRC_RT = ARM_T16_LDR_BX /\
+  0 <= SRC_RA < 16 /\ 0 <= SRC_RT < 8 /\ ARM_T16_PAD = 0 /\ ARM_PATCH_SIZE = 12 /\ ARM_T16_NOP = [0xC0; 0x46] /\ ARM_ROTATE = 2.
+Proof. exact src_arm_words. Qed.
+Print Assumptions C16_source_words.
+Theorem C16_source_patch : forall src target, snd (arm_patch SRC_RA SRC_RT src target) =
+  let is_thumb := Z.odd src in
+  let src_ptr := if is_thumb then (src mod W32 - 1) mod W32 else src in
+  let patch := flat_map (le_bytes 4) (if is_thumb then [ARM_T16_LDR_BX; target mod W32; ARM_T16_PAD] else [ARM_A32_LDR; ARM_A32_BX; target mod W32]) in
+  if is_thumb && negb (src_ptr mod 4 =? 0) then ARM_T16_NOP ++ firstn (Z.to_nat (ARM_PATCH_SIZE - ARM_ROTATE)) patch else patch.
+Proof. exact src_arm_patch. Qed.
+Print Assumptions C16_source_patch.
